@@ -148,7 +148,7 @@ def freeze_family(ld, r, count):
             except Exception as e:
                 wrapped = ('ctor', type(e).__name__)
             same = repr(plain) == repr(wrapped) or (plain[1] is not None and wrapped[0] != 'ctor' and wrapped[1] is not None
-                                                    and plain[1][0] == wrapped[1][0] and repr(plain[0]) == repr(wrapped[0]))
+                                                    and plain[1][1] == 0 and wrapped[1][1] == 0 and repr(plain[0]) == repr(wrapped[0]))     # both refuse with a library error
             if not same:
                 fails.append(f'profiling changes the iteration of new(range({n}){" keyed" if keyed else ""}).{".".join(lower + upper)} (seed {seed}): {plain!r} vs wrapped {wrapped!r}')
     return fails
